@@ -1,4 +1,5 @@
 import GrafeoModel.Model.RdfConc
+import GrafeoModel.Model.LpgConc
 import GrafeoModel.Driver.Proto
 
 /-! Stream `conc`: multi-step store operations under a forced interleaving (C20). Stateless lines. -/
@@ -31,20 +32,82 @@ def showTriples (ts : List Triple) : String :=
   let s := ts.foldr insertT []
   if s.isEmpty then "-" else joinWith "," (s.map (fun t => s!"{t.s}.{t.p}.{t.o}"))
 
+/-! ### `conc lpg` -/
+
+def parseLOp (s : String) : Option LpgConc.COp :=
+  match s.toList with
+  | 'c' :: r =>
+    let t := String.ofList r
+    if t == "" then some (.create []) else ((t.splitOn ".").mapM (fun (x : String) => x.toNat?)).map .create
+  | 'd' :: r => (String.ofList r).toNat?.map .delete
+  | 'a' :: r => match ((String.ofList r).splitOn ".").mapM (·.toNat?) with
+    | some [i, l] => some (.addLabel i l) | _ => none
+  | 'r' :: r => match ((String.ofList r).splitOn ".").mapM (·.toNat?) with
+    | some [i, l] => some (.remLabel i l) | _ => none
+  | 'p' :: r => match (String.ofList r).splitOn "=" with
+    | [ik, v] => match (ik.splitOn ".").mapM (·.toNat?) with
+      | some [i, k] => some (.setProp i k v) | _ => none
+    | _ => none
+  | 'q' :: r => match ((String.ofList r).splitOn ".").mapM (·.toNat?) with
+    | some [i, k] => some (.remProp i k) | _ => none
+  | _ => none
+
+def parseLProgs (s : String) : Option (List (List LpgConc.COp)) :=
+  (s.splitOn ";").mapM (fun p => if p == "-" || p == "" then some [] else (p.splitOn ",").mapM parseLOp)
+
+def insertNat (x : Nat) : List Nat → List Nat
+  | [] => [x]
+  | y :: ys => if x ≤ y then x :: y :: ys else y :: insertNat x ys
+def sortNat (l : List Nat) : List Nat := l.foldr insertNat []
+
+def insertKV (x : Nat × String) : List (Nat × String) → List (Nat × String)
+  | [] => [x]
+  | y :: ys => if x.1 ≤ y.1 then x :: y :: ys else y :: insertKV x ys
+
+/-- canonical dump: nodes (live flag, labels, properties), label index per label, property index of key 0 -/
+def showLpg (s : Lpg.Store) (nLabels : Nat) (vals : List String) : String :=
+  let live := s.nodeIds
+  let nodes := (List.range s.nextNode).map (fun id =>
+    let ls := natList (sortNat (s.nodeLabelsOf id))
+    let ps := joinWith "&" (((s.nodePropsOf id).foldr insertKV []).map (fun kv => s!"{kv.1}={kv.2}"))
+    s!"{id}{if live.contains id then "L" else "D"}:{ls}:{ps}")
+  let lidx := (List.range nLabels).map (fun l => s!"{l}:{natList (sortNat (s.nodesByLabel l))}")
+  let pidx := vals.map (fun v => s!"{v}:{natList (sortNat (s.findByProp 0 v))}")
+  s!"nodes={joinWith ";" nodes} lidx={joinWith ";" lidx} pidx={joinWith ";" pidx}"
+
+def lpgResults (t : LpgConc.Thread) : String := if t.results.isEmpty then "-" else joinWith "," t.results
+
+def handleLpg (kind n0 progs sched : String) : Option Proto.Out := do
+  let n0 ← n0.toNat?
+  let progs ← parseLProgs progs
+  let sched ← parseNatList sched
+  let fuel := 6 * (progs.map List.length).sum + 6
+  let st := LpgConc.finishAll fuel (LpgConc.runSched (LpgConc.init n0 progs) sched)
+  let ok := LpgConc.consistent st.store
+  if kind == "lpg" then
+    pure { model := s!"res={joinWith ";" (st.threads.map lpgResults)} {showLpg st.store 3 ["I1", "I2", "S61"]}" }
+  else
+    let v := if ok then "ok" else "torn"
+    pure { model := v, spec := "ok", sig := if ok then "-" else "lpg-index-torn" }
+
+def handleRdf (kind io progs sched : String) : Option Proto.Out := do
+  let progs ← parseRProgs progs
+  let sched ← parseNatList sched
+  let fuel := 4 * (progs.map List.length).sum + 4
+  let s := finishAll false fuel (runSched false (init (io == "1") progs) sched)
+  let ok := consistent s.store
+  if kind == "rdf" then
+    pure { model := s!"res={joinWith ";" (s.threads.map showResults)} triples={showTriples s.store.triples} idx={if ok then "ok" else "torn"}" }
+  else if kind == "rdf.inv" then
+    let v := if ok then "ok" else "torn"
+    pure { model := v, spec := "ok", sig := if ok then "-" else "rdf-index-torn" }
+  else none
+
 def handle (args : List String) : Option Proto.Out :=
   match args with
-  | [kind, io, progs, sched] => do
-    let progs ← parseRProgs progs
-    let sched ← parseNatList sched
-    let fuel := 4 * (progs.map List.length).sum + 4
-    let s := finishAll false fuel (runSched false (init (io == "1") progs) sched)
-    let ok := consistent s.store
-    if kind == "rdf" then
-      pure { model := s!"res={joinWith ";" (s.threads.map showResults)} triples={showTriples s.store.triples} idx={if ok then "ok" else "torn"}" }
-    else if kind == "rdf.inv" then
-      let v := if ok then "ok" else "torn"
-      pure { model := v, spec := "ok", sig := if ok then "-" else "rdf-index-torn" }
-    else none
+  | [kind, a, progs, sched] =>
+    if kind == "lpg" || kind == "lpg.inv" then handleLpg kind a progs sched
+    else handleRdf kind a progs sched
   | _ => none
 
 end Grafeo.DriverConc
